@@ -469,15 +469,48 @@ def run_pair_check(prop, tier, seed):
     return rc
 
 
+def run_replay(path):
+    """re-executes the scenario of a replay file against the current /repo and re-judges it with TLC"""
+    from harness import tlc
+    doc = json.load(open(path))
+    prop = doc["property"]
+    if "family" not in doc or doc.get("scenario") is None or doc.get("family") is None:
+        log("replay files of pair checks are re-judged by re-running the check with VERIF_SEED=%s" % doc.get("seed"))
+        return 2
+    fam = doc["family"]
+    if fam.startswith("replay:"):
+        log("this trace came from a TLC behaviour (spec -> code); re-run the check to regenerate it")
+        return 2
+    job = (fam, doc["seed"], 400, 0.1 if (doc["seed"] % 100000) % 5 == 0 else 0.0)
+    res = generate_traces([job], procs=1)
+    _, t, err = res[0]
+    if err:
+        log("MACHINERY-ERROR", err)
+        return 2
+    slim = {k: t[k] for k in ("tid", "cfg", "init", "events", "final", "outcome", "crash", "scale")}
+    verdicts, _, _ = tlc.run_trace_validation(os.path.join(VERIF, ".work", "replay_%d" % os.getpid()), [slim], name="r")
+    viol, kf = judge(prop, verdicts, [t], load_known())
+    log("replayed family=%s seed=%s: outcome %s, %d events; failed clauses of %s: %s" %
+        (fam, doc["seed"], t["outcome"], len(t["events"]), prop, [(c, i) for c, i, _, _ in viol] or "none"))
+    for f, clause, idx, _ in kf:
+        log("KNOWN-FINDING: property=%s %s (clause %s)" % (prop, f["id"], clause))
+    if viol:
+        log("VIOLATION property=%s replay=%s" % (prop, path))
+        return 1
+    return 0
+
+
 def main():
     ap = argparse.ArgumentParser()
-    ap.add_argument("prop")
+    ap.add_argument("prop", nargs="?")
     ap.add_argument("--tier", default=os.environ.get("VERIF_TIER", "quick"))
     ap.add_argument("--replay")
     a = ap.parse_args()
     seed = int(os.environ.get("VERIF_SEED", "0"))
     try:
-        if a.prop in ("C15", "C16"):
+        if a.replay:
+            rc = run_replay(a.replay)
+        elif a.prop in ("C15", "C16"):
             rc = run_pair_check(a.prop, a.tier, seed)
         else:
             rc = run_check(a.prop, a.tier, seed)
